@@ -53,6 +53,14 @@ impl Display for DaySelector {
     fn fmt(&self, f: &mut std::fmt::Formatter<'_>) -> std::fmt::Result {
         if !(self.year.is_empty() && self.monthday.is_empty() && self.week.is_empty()) {
             write_selector(f, &self.year)?;
+
+            // A single year would be parsed back as the year of the date that follows it.
+            if let ([year], false) = (self.year.as_slice(), self.monthday.is_empty()) {
+                if year.range.start() == year.range.end() && year.step == 1 {
+                    write!(f, "-{}", year.range.end().deref())?;
+                }
+            }
+
             write_selector(f, &self.monthday)?;
 
             if !self.week.is_empty() {
